@@ -1477,7 +1477,7 @@ def main():
     for k in range(1, 9):
         run.require("c%d_applied" % k)
     sd = seed()
-    n_models = 2400 if thorough else 160
+    n_models = 1600 if thorough else 160
     cases = [{"kind": "model", "seed": sd, "idx": i, "tier": tier()} for i in range(n_models)]
     rs = gen.rng_for(sd, "C20shapes")
     pos = []
